@@ -319,6 +319,36 @@ pub fn run(tier: Tier) {
             rops: vec![ROp::Closure(vec![], vec![ROp::Val(V::Bool(true))]), ROp::Val(V::Bool(true)), ROp::Bin(op)],
         });
     }
+    // operands that are computed at evaluation time (strings that exist in no symbol table: concatenations,
+    // .type() results): every operator on every pair of them
+    {
+        let cat = |a: &str, c: &str| vec![ROp::Val(V::Str(a.into())), ROp::Val(V::Str(c.into())), ROp::Bin(b::Binary::Add)];
+        let computed: Vec<(&str, Vec<ROp>)> = vec![
+            ("q7+w8z", cat("q7", "w8z")),
+            ("q7w+8z", cat("q7w", "8z")),
+            ("q7+w8", cat("q7", "w8")),
+            ("type(1)", vec![ROp::Val(V::Int(1)), ROp::Un(b::Unary::TypeOf)]),
+            ("type(2)", vec![ROp::Val(V::Int(2)), ROp::Un(b::Unary::TypeOf)]),
+            ("type(true)", vec![ROp::Val(V::Bool(true)), ROp::Un(b::Unary::TypeOf)]),
+        ];
+        for op in binaries() {
+            for (ln, l) in &computed {
+                for (rn, r) in &computed {
+                    let mut rops = l.clone();
+                    rops.extend(r.clone());
+                    rops.push(ROp::Bin(op.clone()));
+                    cells.push(Cell { name: format!("({ln}) {op:?} ({rn})"), class: format!("computed-operands/{op:?}"), rops });
+                }
+            }
+        }
+        for u in unaries() {
+            for (ln, l) in &computed {
+                let mut rops = l.clone();
+                rops.push(ROp::Un(u.clone()));
+                cells.push(Cell { name: format!("{u:?}({ln})"), class: format!("computed-operand/{u:?}"), rops });
+            }
+        }
+    }
     let dl_cells: Vec<Vec<dl::Op>> = cells.iter().map(|c| to_dl(&c.rops, &mut symbols)).collect();
 
     // ---------------- (2) alphabet for sequences
